@@ -9,8 +9,7 @@
 //!   svgdoc  <pal> <fg> <bg> <flag> <input>            -> the document recovered from the SVG
 //!            by vlib/svgparse.py (expat): height, style rules, spans per line
 //!   svgtext <pal> <fg> <bg> <flag> <input>            -> the text of the foreground spans,
-//!            line by line, recovered the same way (svgtextk: the same; the model / spec
-//!            side treats the two differently, see ocaml/drv_svg.ml)
+//!            line by line, recovered the same way
 use crate::{hex, unhex, Answer};
 use anstyle::{Ansi256Color, AnsiColor, Color, RgbColor};
 use anstyle_svg::{Palette, Term, VGA, WIN10_CONSOLE};
@@ -94,7 +93,7 @@ pub fn dispatch(kind: &str, f: &[&str]) -> Option<Answer> {
     let mode = match kind {
         "svg" | "svgraw" => None,
         "svgdoc" => Some("doc"),
-        "svgtext" | "svgtextk" => Some("text"),
+        "svgtext" => Some("text"),
         _ => return None,
     };
     Some(match render(f) {
